@@ -95,6 +95,11 @@ func childCtx(bc *BodyCtx, blk *hclsyntax.Block) *BodyCtx {
 				child.DynamicOn = true
 			}
 		}
+		if bm.Body != nil && bm.Body.Ext != nil && bm.Body.Ext.Dynamic {
+			// the static body enables dynamic blocks while the selected dependent body
+			// replaces the extensions: whether `dynamic` is available is not decided
+			child.DynamicOn = true
+		}
 	}
 	return child
 }
@@ -168,6 +173,12 @@ func locateIn(bc *BodyCtx, off int) Loc {
 		}
 		if off <= b.CloseBraceRange.Start.Byte {
 			if b.Body == nil {
+				loc.Kind = "blockHeader"
+				return loc
+			}
+			if br := b.Body.Range(); off < br.Start.Byte || off > br.End.Byte {
+				// between the braces, yet outside the body's own range: error
+				// recovery truncated the body; what is here is the parser's business
 				loc.Kind = "blockHeader"
 				return loc
 			}
